@@ -38,6 +38,16 @@ def run(ctx: Ctx, chk) -> None:
     chk.run_rule(connleak.conn_leak, ctx)
 
 
+def _no_exit_stack(ctx: Ctx, f, rule: str) -> None:
+    """Callback-based teardown (contextlib.ExitStack / AsyncExitStack) is outside what the path rules model: the
+    statements that run on failure are data (callbacks pushed earlier), not control flow.  Say so instead of judging."""
+    for n in ctx.own_nodes(f):
+        if isinstance(n, ast.Call) and norm(n.func).rsplit(".", 1)[-1] in ("AsyncExitStack", "ExitStack"):
+            raise AnalysisError(f"{rule}: {f.qualname} tears down through an exit stack (callbacks registered at run time) - not modelled by the path rules")
+        if isinstance(n, ast.Attribute) and n.attr in ("aclose", "pop_all", "push_async_callback", "enter_async_context"):
+            raise AnalysisError(f"{rule}: {f.qualname} tears down through an exit stack (callbacks registered at run time) - not modelled by the path rules")
+
+
 def _calls(g: CFG, pred):
     return [n for n in g.nodes if n.ast is not None and n.kind in ("stmt", "test", "with-enter") and any(isinstance(x, ast.Call) and pred(x) for p in n.parts() for x in ast.walk(p))]
 
@@ -50,6 +60,7 @@ def enter_order(ctx: Ctx, chk) -> None:
     if f is None:
         raise AnalysisError("anchor vanished: Gateway.__aenter__")
     f = ctx.inl(f)
+    _no_exit_stack(ctx, f, rule)
     g = CFG(f.node)
     loads = _calls(g, lambda c: norm(c.func) == "self.persistence.load")
     starts = _calls(g, lambda c: norm(c.func) == "self.persistence.start")
@@ -139,6 +150,7 @@ def life2(ctx: Ctx, chk) -> None:
     chk.rule(rule, "release on failed entry: after persistence.start() every statement of __aenter__ that can raise is covered by a handler/finally that stops the saver before the error propagates (no background task is left behind when connecting fails)")
     gw = ctx.cls(GW)
     f = ctx.inl(gw.find_method("__aenter__"))
+    _no_exit_stack(ctx, f, rule)
     g = CFG(f.node)
     starts = _calls(g, lambda c: norm(c.func) == "self.persistence.start")
     stops = _calls(g, lambda c: norm(c.func) in ("self.persistence.stop",) or norm(c.func).endswith("._cancel_save"))
@@ -182,6 +194,7 @@ def life3(ctx: Ctx, chk) -> None:
     if f is None:
         raise AnalysisError("anchor vanished: Gateway.__aexit__")
     f = ctx.inl(f)
+    _no_exit_stack(ctx, f, rule)
     g = CFG(f.node)
     disc = _calls(g, lambda c: norm(c.func) == "self.transport.disconnect")
     stops = _calls(g, lambda c: norm(c.func) == "self.persistence.stop")
